@@ -133,7 +133,8 @@ class Boc:
             result['size_bytes'] = data[4]
         else:
             raise BocError(f'unknown boc prefix: {data[:4]}')
-        if data_len - 5 < 1 + 5 * result['size_bytes']:
+        # the fixed part of the header: off_bytes (1 byte), cells / roots / absent (size_bytes each), tot_cells_size (off_bytes)
+        if data_len - 5 < 1 + 3 * result['size_bytes'] or data_len - 6 < 3 * result['size_bytes'] + data[5]:
             raise BocError(f'can\'t parse boc header: {data[:4]}')
         offset_bytes = data[5]
         result['offset_bytes'] = offset_bytes
